@@ -38,7 +38,7 @@ META = {
                     "scipy `diags(a) * J` scales row i of J by a[i]"],
     "technique": "abstract interpretation over dual numbers + sympy derivative comparison",
 }
-MIN_INSTANCES = {"R1": 19, "R2": 18, "R3": 20, "R4": 7, "R5": 2}
+MIN_INSTANCES = {"R1": 19, "R2": 18, "R3": 20, "R4": 7, "R5": 2, "R6": 2}
 
 x, y, c, a = sp.symbols("x y c a", positive=True)
 xr = sp.Symbol("x", real=True)  # argument of the function library (abs/sign need a sign-indefinite symbol)
@@ -1016,6 +1016,66 @@ def run(ctx: Ctx) -> None:
     _check_regularized(ctx, fun)
     _check_maximum(ctx, fun)
     _check_l2norm(ctx, fun)
+    _check_formats_and_dtypes(ctx, fwd, cls)
+
+
+def _check_formats_and_dtypes(ctx: Ctx, fwd, cls) -> None:
+    """R6 - representation clauses that the value/derivative algebra silently relies on.
+    (a) AdArray.__getitem__ row-slices `self.jac`: every Jacobian built by a block constructor (sps.bmat / hstack / vstack /
+        block_diag, which return COO by default) must be converted to a compressed format before it is wrapped in an AdArray.
+    (b) An overload that negates a raw operand (`-other`) must not do so on an ndarray of unknown dtype: the negation of an
+        unsigned integer array wraps around; accepted: the ndarray arm re-binds the operand with a float cast first, or the
+        negation is written as a float product / np.negative(..., dtype=float)."""
+    meths = methods(cls)
+    gi = meths.get("__getitem__")
+    slices_jac = gi is not None and any(isinstance(n, ast.Subscript) and u(n.value) == "self.jac" for n in ast.walk(gi))
+    n6 = 0
+    if slices_jac:
+        for q, fn in fwd.functions():
+            builds = [st for st in walk_local(fn) if isinstance(st, ast.Assign) and isinstance(st.value, ast.Call)
+                      and (dotted(st.value.func) or "") in ("sps.bmat", "sps.hstack", "sps.vstack", "sps.block_diag", "sps.block_array")]
+            wraps = [c for c in walk_local(fn) if isinstance(c, ast.Call) and call_name(c) == "AdArray"]
+            if not builds or not wraps:
+                continue
+            for b in builds:
+                tgt = u(b.targets[0])
+                if not any(tgt in names_in(w) for w in wraps):
+                    continue
+                n6 += 1
+                fmt = kwarg(b.value, "format")
+                ok = isinstance(fmt, ast.Constant) and fmt.value in ("csr", "csc")
+                if not ok:
+                    ok = any(isinstance(st, ast.Assign) and u(st.targets[0]) == tgt and isinstance(st.value, ast.Call)
+                             and isinstance(st.value.func, ast.Attribute) and st.value.func.attr in ("tocsr", "tocsc") and st.lineno > b.lineno
+                             for st in walk_local(fn))
+                    ok = ok or any(isinstance(a, ast.Call) and isinstance(a.func, ast.Attribute) and a.func.attr in ("tocsr", "tocsc") and tgt in names_in(a)
+                                   for w in wraps for a in w.args)
+                ctx.check("R6", ok, fwd, q, b, f"`{u(b)[:90]}` builds the Jacobian with a block constructor that returns COO by default and wraps it "
+                          f"in an AdArray without conversion; AdArray.__getitem__ slices self.jac, which a COO matrix does not support "
+                          f"(row slicing of the result raises TypeError)", construct=f"{q}: Jacobian of a new AdArray is in a sliceable format")
+    if slices_jac and n6 == 0:
+        raise AnchorError("no block-constructed Jacobian wrapped in an AdArray found (initAdArrays expected)")
+    for name, fn in meths.items():
+        params = [p_.arg for p_ in fn.args.args[1:]]
+        for neg in [n for n in walk_local(fn) if isinstance(n, ast.UnaryOp) and isinstance(n.op, ast.USub) and isinstance(n.operand, ast.Name) and n.operand.id in params]:
+            par = neg.operand.id
+            cast = False
+            for iff in [i for i in walk_local(fn) if isinstance(i, ast.If) and i.lineno < neg.lineno]:
+                t = iff.test
+                if isinstance(t, ast.Call) and call_name(t) == "isinstance" and u(t.args[0]) == par and "ndarray" in u(t.args[1]):
+                    for st in iff.body:
+                        if isinstance(st, ast.Assign) and u(st.targets[0]) == par and isinstance(st.value, ast.Call) and (
+                                (isinstance(st.value.func, ast.Attribute) and st.value.func.attr == "astype" and st.value.args and u(st.value.args[0]) in ("float", "np.float64"))
+                                or (dotted(st.value.func) in ("np.asarray", "np.array") and kwarg(st.value, "dtype") is not None and u(kwarg(st.value, "dtype")) in ("float", "np.float64"))):
+                            cast = True
+            ann = next((a.annotation for a in fn.args.args if a.arg == par), None)
+            may_be_array = ann is None or any(k in u(ann) for k in ("AdType", "ndarray", "Any", "Union"))
+            if not may_be_array:
+                continue
+            ctx.check("R6", cast, fwd, f"AdArray.{name}", neg,
+                      f"`-{par}` negates the raw operand; for an ndarray of unsigned integer dtype the negation wraps around "
+                      f"(AdArray([0,1]) - np.array([1,2], dtype=np.uint8) has values [255, 255]), so the value differs from the numpy evaluation",
+                      construct=f"AdArray.{name}: negation of an operand of unknown dtype")
 
 
 def _m(name, old, new, rule, file=FUN, control=False, count=1, accept_undecided=False):
@@ -1031,6 +1091,9 @@ MUTANTS = [
     _m("seed-maximum-no-copy-relies-on-tocsr", "    max_jac = jacs[0].copy()\n", "    max_jac = jacs[0]\n", "R4"),
     _m("seed-heaviside-smooth-value-drops-eps", "        val = 0.5 * (1 + 2 * np.pi ** (-1) * np.arctan(var.val * eps ** (-1)))\n",
        "        val = heaviside_smooth(var.val)\n", "R1"),
+    _m("revert-fix-initadarrays-coo-jacobian", "        jac = sps.bmat([jac], format=\"csr\")\n", "        jac = sps.bmat([jac])\n", "R6", file=FWD),
+    _m("revert-fix-sub-negates-unsigned-array", "        if isinstance(other, np.ndarray):\n            # The negation of an unsigned integer array wraps around.\n            other = other.astype(float)\n",
+       "", "R6", file=FWD),
     _m("maximum-merge-in-own-format", "pp.matrix_operations.merge_matrices(max_jac, lines, inds, \"csr\")",
        "pp.matrix_operations.merge_matrices(max_jac, lines, inds, jacs[0].getformat())", "R4", accept_undecided=True),
     _m("maximum-merge-csc-constant", "pp.matrix_operations.merge_matrices(max_jac, lines, inds, \"csr\")",
